@@ -60,7 +60,38 @@ pub fn empty_frame_chain_to_block_end(data: &mut [u8], start: usize, ftype: u8, 
 
 /// One in-place overwrite (file length unchanged).  Returns its description.
 pub fn inplace_damage(img: &mut Image, frames: &[(String, Frame)], rng: &mut Rng) -> Option<Value> {
-    let kind = rng.below(13);
+    let kind = rng.below(14);
+    if kind == 13 && !frames.is_empty() {
+        // the length field of a frame rewritten so that it ends exactly where a complete frame
+        // EMBEDDED in the payload begins (the reader's cursor then lands on that frame)
+        let ef = crate::ops::embedded_frame();
+        let cands: Vec<(String, Frame, usize)> = frames
+            .iter()
+            .filter(|(_, f)| f.len >= ef.len() + 48)
+            .filter_map(|(n, f)| {
+                let data = img.files.get(n)?;
+                if f.end() > data.len() {
+                    return None; // the file was shortened by an earlier (structural) damage
+                }
+                let p = &data[f.payload_off()..f.end()];
+                // search the frame payload for the embedded frame
+                p.windows(ef.len()).position(|w| w == &ef[..]).map(|o| (n.clone(), f.clone(), o))
+            })
+            .take(64)
+            .collect();
+        if cands.is_empty() {
+            return None;
+        }
+        let (name, f, o) = rng.pick(&cands).clone();
+        let data = img.files.get_mut(&name)?;
+        if f.off + 6 > data.len() {
+            return None;
+        }
+        let nl = (o as u16).to_le_bytes();
+        data[f.off + 4] = nl[0];
+        data[f.off + 5] = nl[1];
+        return Some(json!({"aimed_at": "len-pointing-at-embedded-frame", "frame_type": f.ftype, "file": name, "offset": f.off + 4, "len": 2, "new_length": o, "old_length": f.len}));
+    }
     if kind == 12 && !frames.is_empty() {
         // chain of empty frames from a frame start (preferably one at a block start) to the
         // end of its block
